@@ -6,7 +6,7 @@ xm_c12: replays the C12 request stream (see harness/c12_nodelist.cpp for the pro
 model of MutableNodeRefList / DOMServices::isNodeAfter / XPath::Union.
 
 Extra request understood by the model only (the harness answers `ok`):
-  variant asis|fixed doclast|docfirst
+  variant asis|fixed doclast|docfirst nogroups|groups
       which "one is the ancestor of the other" edge the structural comparison uses, and whether
       addNodeInDocOrder puts a document node first (proposed/C12-docnode-first.diff) or treats it as written
 -/
@@ -22,6 +22,7 @@ structure St where
   rep : Char := 'S'
   fixedEdge : Bool := false
   docNodeFirst : Bool := false
+  groupAware : Bool := false
   docs : List (Nat × DocM) := []
   lists : Array (List (Option NodeRef) × Order) := Array.replicate 8 ([], Order.unknown)
 
@@ -34,6 +35,13 @@ partial def parseNodes (cs : List Char) (acc : List Tree) : Option (List Tree ×
     if '0' ≤ d ∧ d ≤ '9' then
       match parseNodes rest [] with
       | some (ks, ')' :: rest') => parseNodes rest' (Tree.node (d.toNat - '0'.toNat) ks :: acc)
+      | _ => none
+    else none
+  | 'E' :: d :: '(' :: rest =>
+    -- an element that also carries a namespace declaration: one more attribute node
+    if '0' ≤ d ∧ d ≤ '9' then
+      match parseNodes rest [] with
+      | some (ks, ')' :: rest') => parseNodes rest' (Tree.node (d.toNat - '0'.toNat + 1) ks :: acc)
       | _ => none
     else none
   | 't' :: rest => parseNodes rest (Tree.node 0 [] :: acc)
@@ -61,7 +69,7 @@ def topElemFlags (cs : List Char) : List Bool :=
     | c :: rest, depth, acc =>
       if c = '(' then go rest (depth + 1) acc
       else if c = ')' then go rest (depth - 1) acc
-      else if depth = 0 ∧ c = 'e' then go rest depth (true :: acc)
+      else if depth = 0 ∧ (c = 'e' ∨ c = 'E') then go rest depth (true :: acc)
       else if depth = 0 ∧ (c = 't' ∨ c = 'c' ∨ c = 'p') then go rest depth (false :: acc)
       else go rest depth acc
   go cs 0 []
@@ -107,7 +115,8 @@ def afterFn (s : St) (a b : NodeRef) : Bool :=
   else decide (a.idx > b.idx)
 
 def envOf (s : St) : Env :=
-  { indexed := fun _ => s.rep != 'N', after := afterFn s, docNodeFirst := s.docNodeFirst }
+  { indexed := fun _ => s.rep != 'N', after := afterFn s, docNodeFirst := s.docNodeFirst,
+    groupAware := s.groupAware }
 
 def getL (s : St) (i : Nat) : List (Option NodeRef) × Order := s.lists.getD i ([], Order.unknown)
 
@@ -140,12 +149,12 @@ def step (s : St) (ws : List String) : St × String :=
   | ["session", r] =>
     match r.toList with
     | [c] =>
-      if c = 'S' ∨ c = 'W' ∨ c = 'N' then ({ rep := c, fixedEdge := s.fixedEdge, docNodeFirst := s.docNodeFirst }, "ok")
+      if c = 'S' ∨ c = 'W' ∨ c = 'N' then ({ rep := c, fixedEdge := s.fixedEdge, docNodeFirst := s.docNodeFirst, groupAware := s.groupAware }, "ok")
       else (s, "bad op")
     | _ => (s, "bad op")
-  | ["variant", v, w] =>
-    if (v = "asis" ∨ v = "fixed") ∧ (w = "doclast" ∨ w = "docfirst") then
-      ({ s with fixedEdge := v = "fixed", docNodeFirst := w = "docfirst" }, "ok")
+  | ["variant", v, w, x] =>
+    if (v = "asis" ∨ v = "fixed") ∧ (w = "doclast" ∨ w = "docfirst") ∧ (x = "nogroups" ∨ x = "groups") then
+      ({ s with fixedEdge := v = "fixed", docNodeFirst := w = "docfirst", groupAware := x = "groups" }, "ok")
     else (s, "bad op")
   | ["doc", d, shape] =>
     match d.toNat? with
